@@ -515,9 +515,42 @@ class C07Location(Monitor):
             if v is not None and tgt is not None and tgt.geoid != v.geoid and e["instruction_type"] in ("ChargeStationInstruction", "ChargeBaseInstruction", "ReserveBaseInstruction"):
                 h.flag("stationary_instruction_remote_target")
         yield from self.check_state(after, "after step")
+        told_oos = {e["vehicle_id"] for e in _events(events, "INSTRUCTION") if e["instruction_type"] == "OutOfServiceInstruction"}
+        yield from self.trip_ends(h, before, after, "in a step", told_oos)
+        # interruption sweep: in every reached state every vehicle with passengers is told to stop (on the side)
+        from nrel.hive.dispatcher.instruction.instructions import IdleInstruction
+
+        for v in sorted(after.vehicles.values(), key=lambda x: x.id):
+            if sname(v) == "ServicingTrip" and not h.dead:
+                s2 = h.try_apply(after, IdleInstruction(v.id))
+                if s2 is not None:
+                    h.stats["interruption_sweeps"] += 1
+                    if v.vehicle_state.route:
+                        h.flag("interruption_tried_mid_trip")
+                    yield from self.trip_ends(h, after, s2, "by an Idle instruction")
+
+    def trip_ends(self, h, before, after, where: str, told_oos=()) -> Iterable[Violation]:
+        """a trip is ended only at its destination (a vehicle that cannot afford its next move is stranded by the
+        simulator itself, OutOfService without having been told so: that is not an ended trip)"""
+        for b in before.vehicles.values():
+            if sname(b) != "ServicingTrip":
+                continue
+            if not b.vehicle_state.route and b.geoid == b.vehicle_state.request.destination:
+                continue  # arrived (and dropped off) in an earlier step: the trip has already ended, at its destination
+            v = after.vehicles.get(b.id)
+            if v is None or (sname(v) == "ServicingTrip" and v.vehicle_state.request.id == b.vehicle_state.request.id):
+                continue
+            if sname(v) == "OutOfService" and v.id not in told_oos:
+                continue
+            if v.geoid != b.vehicle_state.request.destination:
+                yield Violation("C07", f"trip ended away from its destination {where}",
+                                {"vehicle": v.id, "request": b.vehicle_state.request.id, "position": v.geoid,
+                                 "destination": b.vehicle_state.request.destination, "now": sname(v)})
 
     def after_probe(self, h, before, after, instruction, vid):
-        return self.check_state(after, "after single instruction")
+        yield from self.check_state(after, "after single instruction")
+        yield from self.trip_ends(h, before, after, "by a single " + type(instruction).__name__,
+                                  {vid} if type(instruction).__name__ == "OutOfServiceInstruction" else ())
 
 
 # ============================================================================ C08 (history part)
